@@ -1892,6 +1892,31 @@ func generateScenarios(prop string, seed uint64, n int, adv bool) []*scenario {
 				sc.Features = append(sc.Features, "child-update-refused-422")
 			}
 			out = append(out, sc)
+		case prop == "C06" && i%10 == 4:
+			// an owned child is already terminating (held by a finalizer) and the hook no longer wants any child of
+			// that kind (or none at all): the dying child is left alone, not deleted again on every sync
+			sc := g.basic("basic", i, s)
+			for tries := 0; tries < 40 && (len(sc.Hook.Children) == 0 || sc.Hook.PlainOwnerRef); tries++ {
+				sc = g.basic("basic", i, s)
+			}
+			sc.Warmup, sc.Setup, sc.Ctl.SSA = true, nil, false
+			h2 := sc.Hook
+			h2.Children = nil
+			if len(sc.Hook.Children) > 1 && r.Bool() {
+				h2.Children = sc.Hook.Children[1:] // perhaps still of the same kind: the per-child path
+			}
+			sc.Hook2 = &h2
+			for _, ref := range sc.childRefs() {
+				ref.Op, ref.Data = "deleting", J{"finalizers": A{"example.com/hold"}}
+				sc.Setup = append(sc.Setup, ref)
+				break
+			}
+			sc.Rounds = []roundSpec{{}, {}}
+			sc.Features = []string{"child-deleting", "hook-changes-mind", "undesired-child-already-terminating"}
+			if sc.Ctl.SSA {
+				sc.Features = append(sc.Features, "ssa")
+			}
+			out = append(out, sc)
 		case prop == "C06" && i%10 == 9:
 			// a child that needs an update has begun terminating (held by a finalizer) since the cache was taken: the
 			// update built on the cached copy meets a conflict, and nothing may be written to the dying child after it
